@@ -19,6 +19,7 @@ def lib_exceptions():
 
 def ns():
     from .native import pregex_ns
+    install_ghosts()        # before any witness is built, so that every class instance carries its ghost fields
     return pregex_ns()
 
 
@@ -38,6 +39,11 @@ WITNESS_EXPRS = {
     "Quantifier": ["Optional('a')", "AtLeastAtMost('ab', 2, 3)", "Indefinite(AnyDigit(), is_greedy=False)"],
     "Token": ["Pregex('a')", "Pregex('.')", "Backslash()", "Newline()"],
 }
+
+
+CLASS_WITNESSES = ["AnyLetter()", "AnyButDigit()", "AnyFrom('a')", "AnyFrom('.', '-')", "AnyButFrom('a', ']')", "AnyBetween('a', 'f')",
+                   "AnyButBetween('0', '5')", "Any()", "AnyWordChar()", "AnyWordChar(is_global=True)", "AnyButWordChar(is_global=True)",
+                   "AnyWhitespace()", "AnyFrom(Newline())", "~AnyFrom('x')"]
 
 
 def witnesses(tname, repeatable=None):
@@ -80,6 +86,8 @@ def build_arg(desc):
         return pool_for("text")
     if k == "expr":
         return [(desc["expr"], eval(desc["expr"], ns()))]
+    if k == "classobj":
+        return pool_for("classobj")
     if k == "new":
         return [("<new instance>", NEW)]
     if k == "tuple":
@@ -99,6 +107,7 @@ def resolve_nested(qualname):
     outer_q, _, inner = qualname.partition(".<locals>.")
     owner, outer = resolve(outer_q)
     outer = getattr(outer, "__func__", outer)
+    outer = getattr(outer, "_pvc_orig", outer)        # the ghost-recording wrapper of install_ghosts()
     code = None
     for c in outer.__code__.co_consts:
         if isinstance(c, types.CodeType) and c.co_name == inner:
@@ -153,6 +162,19 @@ def install_ghosts():
         return orig(self, pattern, is_negated, simplify_word)
     init._pvc_ghost = True
     base.__init__ = init
+    # GHOSTOP(p) = (core operation, left operand, right operand) that produced a class
+    for attr, opname in (("_Class__or", "or"), ("_Class__sub", "sub")):
+        f0 = base.__dict__[attr]
+
+        def core(pre1, pre2, f0=f0, opname=opname):
+            r = f0(pre1, pre2)
+            try:
+                r._ghost_op = (opname, pre1, pre2)
+            except AttributeError:
+                pass
+            return r
+        core._pvc_orig = f0
+        setattr(base, attr, core)
 
 
 def call_real(qualname, args):
@@ -219,6 +241,8 @@ def _check_call(qualname, contract, args, raises):
     expected = [c for c, cond in raises.items() if specrt.eval_clause(cond, env)]
     if raised is not None:
         name = type(raised).__name__
+        if name in contract.get("may_raise", ()) and name not in expected:
+            return {"ok": True, "outcome": name + " (allowed, condition unspecified)"}
         if name not in raises:
             return {"ok": False, "why": f"raised {name}, which the contract does not allow", "observed": f"{name}: {raised}"[:300]}
         if name not in expected:
@@ -325,6 +349,9 @@ def pool_for(kind):
         return [("True", True), ("False", False)]
     if kind == "newobj":
         return [("<new instance>", NEW)]
+    if kind == "classobj":
+        n = ns()
+        return [(e, eval(e, n)) for e in CLASS_WITNESSES]
     if kind in ("varpre", "varpre_small", "varchars"):
         from pvc_kinds import KIND_TAGS
         rnd = random.Random(5)
@@ -358,7 +385,11 @@ def pool_for(kind):
         out, seen = [], set()
         for t in kind:
             base = t.split(":")[0]
-            if base in WITNESS_EXPRS and base not in seen:
+            if base == "classobj":
+                if base not in seen:
+                    seen.add(base)
+                    out.extend(pool_for("classobj"))
+            elif base in WITNESS_EXPRS and base not in seen:
                 seen.add(base)
                 out.extend(witnesses(base))
             elif t in ("str0", "str1", "str2", "other", "none", "int", "str"):
